@@ -88,3 +88,20 @@ Proof. reflexivity. Qed.
 (* 6a15d74: the default of a Json field is returned as the JSON value *)
 Theorem json_default_holds : forall txt d, spec_C04 (CJsonDefault txt d) (run_C04 (CJsonDefault txt d)) = true.
 Proof. intros txt d. cbn [spec_C04 run_C04]. apply zlist_refl. Qed.
+
+(* ---------- updates over a stored value; the service and earlier requests ---------- *)
+(* the answer the model gives for an update does not depend on the value stored before: there is no state in which a
+   write of a different (or of the same) value is not carried out *)
+Theorem upd_independent_of_old : forall h ty old old' new, run_C04 (CUpd h ty old new) = run_C04 (CUpd h ty old' new).
+Proof. reflexivity. Qed.
+Theorem upd_holds : forall h ty old new, spec_C04 (CUpd h ty old new) (run_C04 (CUpd h ty old new)) = true.
+Proof. intros. cbn [spec_C04 run_C04]. apply zlist_refl. Qed.
+
+(* the value a request writes is the value its own literal denotes, whatever requests were handled before or after it *)
+Theorem svc_stateless : forall pre l post, nth (List.length pre) (svc_values (pre ++ l :: post)) [] = decode_literal l.
+Proof.
+  intros pre l post. unfold svc_values. rewrite map_app. cbn [map].
+  rewrite app_nth2; rewrite map_length; [|apply Nat.le_refl]. rewrite Nat.sub_diag. reflexivity.
+Qed.
+Theorem svc_holds : forall lits, spec_C04 (CSvc lits) (run_C04 (CSvc lits)) = true.
+Proof. intros. cbn [spec_C04 run_C04]. apply zlist_refl. Qed.
